@@ -505,6 +505,7 @@ func c17Compressed(ctx *Ctx) {
 
 func genC17(ctx *Ctx) {
 	r := ctx.Rng
+	lz4Phase(ctx)
 	c17SysRows(ctx)
 	c17Compressed(ctx)
 	c17FailedSession(ctx)
